@@ -840,6 +840,23 @@ pub fn closed_loop_noise(run: &mut Run, cfg: &SCfg, t0: u64, dts: &[u64], fault:
             run.fail("c09-stack-panic", format!("{ctxs} ({loc})"));
         }
         Ok(Ok(())) => {
+            // C08 on the real closed loop: nothing ever answers this tracer, so every round ends by the time limit — at
+            // the first check after max-round-duration, i.e. it lasts more than max_round and at most max_round plus the
+            // wait of the iteration that published it
+            if fault.is_none() {
+                let mut start = t0;
+                for (i, _, _) in pubs.iter() {
+                    let now: u64 = t0 + l.iters.iter().take(*i).map(|x| x.2).sum::<u64>();
+                    let d = now - start;
+                    let last_dt = l.iters.get(i.wrapping_sub(1)).map_or(0, |x| x.2);
+                    if !(d > cfg.max_round && d <= cfg.max_round + last_dt) {
+                        run.fail("c08-stack-round-duration", format!("{ctxs}: a round of a trace that nothing answers lasted {d} ns (max-round-duration {} ns, the publishing iteration waited {last_dt} ns)", cfg.max_round));
+                        break;
+                    }
+                    start = now;
+                    run.count("c08:stack-round-duration-checked");
+                }
+            }
             // exactly n rounds, numbered in order
             let ids: Vec<Option<usize>> = pubs.iter().map(|p| p.2).collect();
             let in_order = ids.iter().enumerate().all(|(k, id)| id.map_or(true, |x| x == k));
